@@ -152,9 +152,15 @@ func TestWorker(t *testing.T) {
 				out.Stats["violations.additional_same_class"]++
 				continue
 			}
+			// the tapes as recorded: reported unminimised when minimisation in this process is
+			// not stable (code under test with state that outlives a run); the fresh-process
+			// replay of the report decides whether it counts
+			orig := toReplay(r)
+			orig.Note = "not minimised: shrinking inside the worker process was not stable"
 			sr := shrink(t, r, 300)
 			if sr.Abort != "" {
-				out.Aborts = append(out.Aborts, fmt.Sprintf("%s idx=%d: %s", r.Family, i, sr.Abort))
+				out.Stats["shrink.unstable"]++
+				out.Violations = append(out.Violations, orig)
 				continue
 			}
 			// final rendering with trace
@@ -164,7 +170,8 @@ func TestWorker(t *testing.T) {
 			rs2.Family = sr.Family
 			fr := execRun(t, rs2, true)
 			if len(fr.Violations) == 0 {
-				out.Aborts = append(out.Aborts, fmt.Sprintf("%s idx=%d: minimised tape did not reproduce", r.Family, i))
+				out.Stats["shrink.unstable"]++
+				out.Violations = append(out.Violations, orig)
 				continue
 			}
 			out.Violations = append(out.Violations, toReplay(fr))
